@@ -90,6 +90,48 @@ def exhaustive_lines(mmax, acks=(1000, 2 * 10**9)):
     return out
 
 
+def udpsrv_lines(reps):
+    """Request issued by the server side on the connection a real udp.Server returns from Server.NewConn(peer) - the peer's
+    address in 4-byte and in 16-byte form - and answered through the server's socket (peer table).  Real time: ACK_TIMEOUT
+    300 ms, every answer comes while fewer than 1+MAX copies are out (no reliance on the last copy's window)."""
+    A = 300 * 10**6
+    out = []
+    for lvl in ("udpsrv4", "udpsrv16"):
+        out.append("cfg %d 2 1 %s | send 0 - g | pig 0 7" % (A, lvl))
+        out.append("cfg %d 2 1 %s | send 0 - p7 | ack 0 | sleep %d | tick 0 | resp 0 non 8" % (A, lvl, A + 20 * 10**6))
+        out.append("cfg %d 2 1 %s | send 0 - g | resp 0 con 9" % (A, lvl))
+        out.append("cfg %d 2 1 %s | send 0 - g | sleep %d | tick 0 | pig 0 6" % (A, lvl, A + 20 * 10**6))
+        out.append("cfg %d 1 1 %s | send 0 - g | rst 0 | sleep %d | tick 0 | cancel 0" % (A, lvl, A + 20 * 10**6))
+    return out * reps
+
+
+def handler_issued_lines():
+    """A request issued from inside a handler of the connection (`hsend`), then a burst of unrelated messages from the
+    peer that is longer than the queue of received messages (16), then the acknowledgement / answer: all datagrams
+    reach the connection through one reader in order, so the acknowledgement is behind the burst."""
+    out = []
+    for A in (1000, 2 * 10**9):
+        for M in (1, 2, 4):
+            for k in (0, 15, 16, 17, 20, 40):
+                for reaction in ("ack-resp", "pig", "resp-non"):
+                    for when in ("at-once", "after-copy"):
+                        ops = ["cfg %d %d 1" % (A, M), "hsend 0 - %s" % ("p7" if k % 2 else "g")]
+                        if when == "after-copy":
+                            ops += ["sleep %d" % (A + 1), "tick 0"]
+                        ops.append("burst %d" % k)
+                        if reaction == "ack-resp":
+                            ops += ["ack 0", "sleep %d" % (A + 1), "tick 0", "resp 0 non 7"]
+                        elif reaction == "pig":
+                            ops += ["pig 0 7", "sleep %d" % (A + 1), "tick 0"]
+                        else:
+                            ops += ["resp 0 non 7", "sleep %d" % (A + 1), "tick 0"]
+                        ops += ["sleep %d" % A, "tick 0", "cancel 0"]
+                        out.append(" | ".join(ops))
+    # two requests: one from a handler, one from the application, NSTART 2
+    out.append("cfg 1000 2 2 | send 1 - | hsend 0 - p7 | burst 17 | ack 0 | ack 1 | sleep 1001 | tick 0 | resp 0 non 5 | resp 1 con 6")
+    return out
+
+
 def with_level(line, level):
     f = line.split(" | ", 1)
     return f[0] + " " + level + (" | " + f[1] if len(f) == 2 else "")
@@ -242,10 +284,24 @@ def corpus_lines():
     return out
 
 
+def is_udpsrv(line):
+    f = line.split("|")[0].split()
+    return len(f) == 5 and f[4].startswith("udpsrv")
+
+
 def run_lines(ctx, art, lines, tag="x"):
-    impl = common.run_test_harness(ctx, art["test"], "TestC06", lines, tag=tag, timeout=900)
-    if impl is None or len(impl) != len(lines):
-        return None, None, None
+    # the datagram-server level needs real sockets (no synctest bubble, real time): its own test function
+    idx_u = [i for i, l in enumerate(lines) if is_udpsrv(l)]
+    idx_m = [i for i, l in enumerate(lines) if not is_udpsrv(l)]
+    impl = [None] * len(lines)
+    for idx, test, tg in ((idx_m, "TestC06", tag), (idx_u, "TestC06UDPServer", tag + "u")):
+        if not idx:
+            continue
+        out = common.run_test_harness(ctx, art["test"], test, [lines[i] for i in idx], tag=tg, timeout=900)
+        if out is None or len(out) != len(idx):
+            return None, None, None
+        for i, o in zip(idx, out):
+            impl[i] = o
     model = judge = None
     if art.get("driver"):
         rc, model, _ = common.pipe_lines([art["driver"], "model"], lines)
@@ -261,7 +317,7 @@ REPEAT = 6   # the order in which one tick visits the pending entries is Go's ra
 
 def fails(ctx, art, line, tag="min"):
     """Runs the line up to REPEAT times; returns (observation, judge verdict) of the first failing run, else None."""
-    impl, _, judge = run_lines(ctx, art, [line] * REPEAT, tag=tag)
+    impl, _, judge = run_lines(ctx, art, [line] * (1 if is_udpsrv(line) else REPEAT), tag=tag)
     if not impl or not judge:
         return None
     for o, j in zip(impl, judge):
@@ -335,6 +391,12 @@ def explore(ctx, art):
                 lines.append(" | ".join(steps))
                 lines.append(" | ".join(["cfg %d %d %d %s" % (a, m, n, lvl), "send 2 - g", "ack 2", "sendf 0 %d %s" % (50 * a, kind), "sleep %d" % (a + 1),
                                          "tick 0", "resp 2 con 5", "sleep %d" % (2 * a), "tick 0", "send 1 - g", "sleep %d" % (a + 1), "tick 0", "pig 1 9"]))
+    ul = udpsrv_lines(3 if thorough else 1)
+    lines += ul
+    ctx.count("level-udpsrv (server-issued request on a Server.NewConn connection, real sockets)", len(ul))
+    hl = handler_issued_lines()
+    lines += hl + [with_level(l, "opt") for l in hl[::7]]
+    ctx.count("request-issued-from-a-handler x burst beyond the receive queue", len(hl))
     nfixed = len(lines)
     classes = {}
     for k in range(200000 if thorough else 20000):
